@@ -91,20 +91,42 @@ def sameRequests (links nodes : List (List Int)) : Except String Nat := do
 
 def mkReg (recs : List (Innov Float)) (ctr : Int × Int) : Reg Float := { records := recs, nextInn := ctr.1, nextNode := ctr.2 }
 
-/-- the counters the modelled initialisation yields, as (nextInn, nextNode) -/
-def modelInitCounters (kind : String) (inp init : Json) : E (Option (Int × Int)) := do
+/-- `(getLastNodeId, getNextGeneInnovNum)` of a dumped genome as the MODEL's accessors compute them -/
+def modelLasts (g : Genome Float) : Option (Int × Int) :=
+  match g.lastNodeId, g.nextGeneInnov with
+  | .ok ln, .ok ni => some (ln, ni)
+  | _, _ => none
+
+/-- the counters the modelled initialisation yields, as (nextInn, nextNode), computed by the model's own accessors from
+    the dumped genomes (in whatever order their genes / nodes are listed); `none` in the second component = the model's
+    accessors agree with the implementation's on every dumped genome -/
+def modelInitCounters (kind : String) (inp init : Json) : E (Option (Int × Int) × Option String) := do
+  let gs ← (← fldArr init "genomes").mapM parseGenome
+  let ls ← rows init "lasts"
+  -- accessor tie: model vs implementation on every organism of the constructed population
+  let accMis : Option String :=
+    if gs.length != ls.length then some "dump: genomes / lasts length"
+    else (List.zip gs ls).findSome? (fun (g, row) =>
+      match modelLasts g, row with
+      | some (ln, ni), [iln, ini] => if ln == iln && ni == ini then none else some s!"accessors: model ({ln},{ni}) vs impl ({iln},{ini}) on genome {g.id}"
+      | _, _ => some s!"accessors: model fails on genome {g.id}")
   if kind.startsWith "spawn" then
-    let (ln, ni) ← pair2 init "startLasts"
-    -- Model/Epoch.lean `spawn`: nextInn := nextGeneInnov - 1, nextNode := lastNodeId + 1
-    return some (ni - 1, ln + 1)
-  else if kind == "read" then
-    let ls ← rows init "lasts"
-    let c := ls.foldl (fun c row => match row with | [ln, ni] => readStep c ln ni | _ => c) ((0, 0) : Int × Int)
-    return some (c.2, c.1)
+    let start ← parseGenome (← fld init "start")
+    let (iln, ini) ← pair2 init "startLasts"
+    match modelLasts start with
+    | some (ln, ni) =>
+      let mis := if ln == iln && ni == ini then accMis else some s!"accessors on the start genome: model ({ln},{ni}) vs impl ({iln},{ini})"
+      -- Model/Epoch.lean `spawn`: nextInn := nextGeneInnov - 1, nextNode := lastNodeId + 1
+      return (some (ni - 1, ln + 1), mis)
+    | none => return (none, some "accessors: model fails on the start genome")
+  else if kind.startsWith "read" then
+    -- `ReadPopulation`: fold of `readStep` over the genomes in file order, with the MODEL's accessors
+    let c := gs.foldl (fun c g => match modelLasts g with | some (ln, ni) => readStep c ln ni | none => c) ((0, 0) : Int × Int)
+    return (some (c.2, c.1), accMis)
   else if kind == "random" then
     let c := randomCounters (← fldInt inp "nIn") (← fldInt inp "nOut") (← fldInt inp "maxHidden")
-    return some (c.2, c.1)
-  else return none
+    return (some (c.2, c.1), accMis)
+  else return (none, accMis)
 
 def hInnovHistory : Handler := fun j => do
   let inp ← fld j "in"
@@ -165,23 +187,22 @@ def hInnovHistory : Handler := fun j => do
       if !decide (ConsistentB h.B) then throw "inconsistent-history|ConsistentB fails on the accumulated history"
       if !decide (ConsistentR h.R) then throw "inconsistent-history|ConsistentR fails on the accumulated history"
     return (h, okGens, errCls, contiguous)
-  let modelCtr ← modelInitCounters kind inp init
-  let initCorr := match modelCtr with
+  let (modelCtr, accMis) ← modelInitCounters kind inp init
+  let initCorr := accMis.isNone && match modelCtr with
     | some c => c == ctrI
     | none => true
-  let cls := kind ++ (if ascending then "" else ":unsorted")
+  let cls := kind ++ (if ascending || kind.endsWith "unsorted" then "" else ":unsorted")
   match run with
   | .error e =>
     let parts := e.splitOn "|"
-    -- a start genome with genes out of innovation order is outside the stated domain (Ascending): its failures carry their own signature
-    let sg := (if ascending then "" else "unsorted-start:") ++ parts.head!
+    let sg := parts.head!
     if parts.head! == "driver" then throw e
     return { corr := twin != "differs" && initCorr, spec := false, nontrivial := false, cls := cls, sig := "innov:" ++ sg,
              detail := e, props := [("C03", false, e, "innov:" ++ sg)] }
   | .ok (h, okGens, errCls, contiguous) =>
     let corr := twin != "differs" && initCorr && contiguous
     let detail := (if twin == "differs" then "twin run through NextEpoch ends in a different population; " else "") ++
-      (if initCorr then "" else s!"counter initialisation: model {modelCtr} vs impl {ctrI}; ") ++
+      (if initCorr then "" else s!"counter initialisation: model {modelCtr} vs impl {ctrI}; {accMis.getD ""}; ") ++
       (if contiguous then "" else "counters changed between epochs; ")
     return { corr := corr, spec := true, nontrivial := okGens ≥ 1 && h.newInns ≥ 1 && h.dupRequests ≥ 1,
              cls := cls ++ (if errCls == "" then "" else ":err:" ++ errCls), detail := detail,
